@@ -238,7 +238,7 @@ func c02r2(c *Ctx) {
 			}
 			// which account's entry?
 			acctSide := "?"
-			if org := entryOrigin(s.Env, valueOwner(call.Call.Args[0]), 0); strings.HasPrefix(org, "read:") {
+			if org := entryOriginOfValue(s.Env, call.Call.Args[0], 0); strings.HasPrefix(org, "read:") {
 				at := strings.TrimPrefix(org, "read:")
 				switch {
 				case at == x.snd:
@@ -284,9 +284,9 @@ func c02r2(c *Ctx) {
 			}
 			if class == "existing holding of the credited account" {
 				// E.Value.Add(E.Value, current.Value): E is the entry being credited into the account that holds `current`
-				if org := entryOrigin(s.Env, valueOwner(call.Call.Args[2]), 0); strings.HasPrefix(org, "read:") && strings.TrimPrefix(org, "read:") != x.snd {
+				if org := entryOriginOfValue(s.Env, call.Call.Args[2], 0); strings.HasPrefix(org, "read:") && strings.TrimPrefix(org, "read:") != x.snd {
 					acctSide = "incoming"
-				} else if org2 := entryOrigin(s.Env, valueOwner(call.Call.Args[1]), 0); amt == s.Env.Term(call.Call.Args[1]) && strings.HasPrefix(org2, "read:") && strings.TrimPrefix(org2, "read:") != x.snd {
+				} else if org2 := entryOriginOfValue(s.Env, call.Call.Args[1], 0); amt == s.Env.Term(call.Call.Args[1]) && strings.HasPrefix(org2, "read:") && strings.TrimPrefix(org2, "read:") != x.snd {
 					acctSide = "incoming"
 				}
 			}
@@ -330,6 +330,20 @@ func c02r2(c *Ctx) {
 }
 
 // valueOwner: for a load of X.Value returns X.
+// entryOriginOfValue: the origin of the entry whose Value the big.Int v is — following parameters to the call site (a
+// number handed to a helper or a function literal as `entry.Value`).
+func entryOriginOfValue(e *Env, v ssa.Value, depth int) string {
+	if depth > 6 {
+		return "?"
+	}
+	if par, ok := v.(*ssa.Parameter); ok {
+		if a, pe := e.actual(par); a != nil {
+			return entryOriginOfValue(pe, a, depth+1)
+		}
+	}
+	return entryOrigin(e, valueOwner(v), 0)
+}
+
 func valueOwner(v ssa.Value) ssa.Value {
 	if ld, ok := v.(*ssa.UnOp); ok {
 		if fa, ok := ld.X.(*ssa.FieldAddr); ok {
